@@ -120,7 +120,17 @@ def run(chk):
     sh['custom21 (declared with extension_name)'] = full
     BUILD = {'custom21 (declared with extension_name)': {k: v for k, v in full.items() if k != 'extensions'}}          # what a caller hands over: without the entry the library adds
 
+    # properties the library fills in itself (defaults; the pattern language version of a 2.1 indicator) belong to the object like any other: valid selectors from construction on
+    sh['indicator21 (pattern_version left to the library)'] = {k: v for k, v in sh['indicator21'].items() if k != 'pattern_version'}
+    def defaulted(name, d):
+        if name in BUILD: return []
+        try: o = stix2.parse(copy.deepcopy(d))
+        except Exception: return []
+        return [(k, o[k]) for k in o if k not in d and not isinstance(o[k], (list, dict)) and SPEC_SELECTOR.match(k)]
+
     def cases():
+        for name, d in sh.items():
+            for k, v in defaulted(name, d): yield (name, k, True, v)
         for name, d in sh.items():
             valid = {p for p, _ in selectors_of(d)}
             for p, v in selectors_of(d):
@@ -165,7 +175,9 @@ def run(chk):
         if want:
             routes['remove after add'] = lambda: MK.remove_markings(MK.add_markings(stix2.parse(copy.deepcopy(db)), TLP, [sel]), TLP, [sel])
             routes['set_markings'] = lambda: MK.set_markings(MK.add_markings(stix2.parse(copy.deepcopy(db)), TLP, [sel]), 'marking-definition--34098fce-860f-48ae-8e50-ebd3cc5e41da', [sel])
+        filled_in = want and '.' not in sel and sel not in d          # a property the library fills in: it exists in the constructed object, not in a plain dictionary
         for rname, fn in routes.items():
+            if filled_in and 'dict' in rname: continue
             if rname.startswith('parse') and not syntactically_ok: continue          # syntactically illegal selectors are refused by the property cleaner with another error
             if d['type'] == 'file' and rname not in ('parse', 'get_markings(unmarked object)', 'get_markings(object built with a marking)', 'is_marked(object built with a marking)', 'is_marked(unmarked object)', 'is_marked(unmarked dict)', 'parse, after a valid selector', 'parse, before a valid selector',
                                                      'is_marked(unmarked dict), after a valid selector', 'get_markings(unmarked object), last of three'): continue   # SCOs are not versionable
@@ -178,4 +190,4 @@ def run(chk):
             if not want and got is True:
                 return (f'accept#{rname}', f'{name}: selector {sel!r} addresses nothing but is accepted by {rname}', {'selector': sel})
     chk.bounded('selectors: every path and near misses x every entry point', list(cases()), check, classify=lambda c: (c[0], c[1]),
-                bound='11 object shapes (2.0 and 2.1; SDO, SRO, SCO with extension, language content and observed-data with one- and two-character dictionary keys, a custom type declared with extension_name) x every path x near misses x 10 entry points; near misses also at every position of a selector list')
+                bound='12 object shapes (+ every property the library fills in itself as a selector) (2.0 and 2.1; SDO, SRO, SCO with extension, language content and observed-data with one- and two-character dictionary keys, a custom type declared with extension_name) x every path x near misses x 10 entry points; near misses also at every position of a selector list')
